@@ -67,3 +67,26 @@ package access
 //@   ensures built-from-exactly-this-configuration: p != nil && fresh(p) && p.allowedNets == conf.AllowedNets && p.blockedNets == conf.BlockedNets &&
 //@             p.allowedASN == conf.AllowedASN && p.blockedASN == conf.BlockedASN && p.blocklistDomainRules == conf.BlocklistDomainRules &&
 //@             p.blockedHostsEng != nil && p.blockedHostsEng.rules == conf.BlocklistDomainRules
+
+// ---------------------------------------------------------------------------
+// C10: the global access settings block exactly the clients inside one of the
+// configured subnets - every configured subnet counts, whatever its family and
+// prefix length.
+//@ import netutil github.com/AdguardTeam/golibs/netutil
+//@ import stringutil github.com/AdguardTeam/golibs/stringutil
+// golibs SliceSubnetSet.Contains (from its source): some prefix of the slice contains the address.
+//@ interface netutil.SubnetSet method Contains
+//@   modifies nothing
+//@   ensures istype(this, netutil.SliceSubnetSet) ==> ok == inNets(this.(netutil.SliceSubnetSet), ip)
+//@ pred GI(g *Global, nets []netip.Prefix) = g != nil && istype(g.blockedNets, netutil.SliceSubnetSet) && g.blockedNets.(netutil.SliceSubnetSet) == nets
+//@ func NewGlobal
+//@   property C10
+//@   modifies storageText, engineText
+//@   ensures every-configured-subnet-is-kept: err == nil ==> GI(g, blockedSubnets) && fresh(g) && g.blockedHostsEng != nil
+//@   ensures err != nil ==> g == nil
+//@   loop 1 invariant -1 <= #i && #i < len(blockedDomains) && g != nil && fresh(g) && GI(g, blockedSubnets) && b != nil
+//@ func (*Global).IsBlockedIP
+//@   property C10
+//@   requires g != nil && istype(g.blockedNets, netutil.SliceSubnetSet)
+//@   modifies nothing
+//@   ensures blocked-exactly-inside-a-configured-subnet: blocked == inNets(g.blockedNets.(netutil.SliceSubnetSet), ip)
